@@ -57,7 +57,7 @@ pub fn run(args: &Args) -> i32 {
     let alpha = alphabet(true, false);
     // work items: (base, first op[, second op]) prefixes
     let mut items: Vec<(Base, Vec<SOp>)> = vec![];
-    for b in BASES {
+    for b in BASES_WITH_OPEN_TX {
         for a in &alpha {
             if depth >= 2 {
                 items.push((b, vec![*a]));
@@ -85,11 +85,11 @@ pub fn run(args: &Args) -> i32 {
     let s = &stats;
     report.set("evaluations", json!(s.recoveries.load(Ordering::SeqCst)));
     report.set("distinct_nontrivial", json!(nontrivial_images.len()));
-    report.set("rule", json!("every sequence of <= depth storage operations over the alphabet from 3 base states; every prefix of the file-system calls of the last operation (and of the final drop) is a crash image, plus byte-prefixes of the interrupted call, plus every prefix of the calls made by recovery itself; each image is reopened with FileStorage and FileStorageMemoryMapped. distinct = distinct (data,log) byte images; non-trivial = images whose recovery log is not empty"));
+    report.set("rule", json!("every sequence of <= depth storage operations over the alphabet from 5 base states (fresh, free hole, two live records, and the latter two with an outermost transaction already open); every prefix of the file-system calls of the last operation (and of the final drop) is a crash image, plus byte-prefixes of the interrupted call, plus every prefix of the calls made by recovery itself; each image is reopened with FileStorage and FileStorageMemoryMapped. distinct = distinct (data,log) byte images; non-trivial = images whose recovery log is not empty"));
     report.set("exhaustive", json!(true));
     report.set("depth", json!(depth));
     report.set("alphabet_size", json!(alpha.len()));
-    report.set("base_states", json!(BASES.len()));
+    report.set("base_states", json!(BASES_WITH_OPEN_TX.len()));
     report.set("programs", json!(s.programs.load(Ordering::SeqCst)));
     report.set("crash_points", json!(s.crash_points.load(Ordering::SeqCst)));
     report.set("torn_call_images", json!(s.torn.load(Ordering::SeqCst)));
@@ -154,11 +154,14 @@ fn run_program(ctx: &Ctx, base: Base, ops: &[SOp], scratch: &Scratch) -> bool {
         };
         let mut stack: Vec<u64> = vec![];
         let mut tag = 1u8;
+        let mut committed = std::fs::read(&f).unwrap();
         for op in base.script() {
             let _ = apply(&mut p, op, base.script_slots(), tag, &mut stack);
             tag += 1;
+            if stack.is_empty() {
+                committed = std::fs::read(&f).unwrap();
+            }
         }
-        let mut committed = std::fs::read(&f).unwrap();
         for op in &ops[..ops.len() - 1] {
             if apply(&mut p, *op, base.slots(), tag, &mut stack).is_err() {
                 return false; // covered as the last step of the shorter program
